@@ -7,7 +7,8 @@
 (* the batch, carried by the first line).  An event is what the             *)
 (* harness did and saw at one step on a real repository:                   *)
 (*   act, p, q, k, c     the action and its arguments (cell = [k, c])      *)
-(*   t                   target tree of Checkout / Switch (entries)        *)
+(*   t                   target tree of Checkout / Switch (entries); for   *)
+(*                       ResetHard the HEAD tree it has to reproduce       *)
 (*   h, i, w             HEAD tree, index and directory *after* the step,  *)
 (*                       projected from the repository independently of    *)
 (*                       dulwich (git ls-tree / ls-files, os.walk);        *)
@@ -94,7 +95,7 @@ Generic(e) ==
 \* evaluated on the real state, plus the comparison of the real status with the
 \* specification's)
 Failing(e) ==
-    (IF last'.act \in {"Checkout", "Switch"} /\ ~(RoundTrip' /\ head' = ToMap(e.t)) THEN {"RoundTrip"} ELSE {})
+    (IF last'.act \in {"Checkout", "Switch", "ResetHard"} /\ ~(RoundTrip' /\ head' = ToMap(e.t)) THEN {"RoundTrip"} ELSE {})
     \cup (IF ~StageAllComplete' THEN {"StageAllComplete"} ELSE {})
     \cup (IF e.act = "Stage" /\ StageOK(index, wd, Paths, e.p) /\ ~StageComplete' THEN {"StageComplete"} ELSE {})
     \cup (IF e.hasrep /\ obs' # rep' THEN {"StatusExact"} ELSE {})
